@@ -143,6 +143,9 @@ type Layout struct {
 	// SHORT, a BYTE, a short string) hold arbitrary non-zero bytes instead of zeros; TIFF leaves
 	// them undefined.
 	SlotFill bool
+	// NoteTags: the MakerNote value (tag 0x927c) is a directory of this many out-of-line entries
+	// that the library follows (a Nikon type-3 note); only the pending-table model uses it.
+	NoteTags int
 }
 
 type block struct {
@@ -313,28 +316,42 @@ func BuildTIFF(root *Dir, L Layout) Built {
 		}
 	}
 	res.Bytes = out
-	res.MaxPending = simulatePending(placed, dirBlock, valBlock)
+	res.MaxPending = simulatePending(placed, dirBlock, valBlock, L.NoteTags)
 	return res
 }
 
 // simulatePending walks the stream the way a forward-only reader has to and returns a
 // conservative upper bound of simultaneously pending out-of-line references (counting, like a
 // reader with a simple array does, references already consumed since the last sub-directory).
-func simulatePending(placed []*block, dirBlock map[*Dir]*block, valBlock map[*Dir]map[int]*block) int {
+func simulatePending(placed []*block, dirBlock map[*Dir]*block, valBlock map[*Dir]map[int]*block, noteTags int) int {
 	sorted := append([]*block(nil), placed...)
 	sort.Slice(sorted, func(i, j int) bool { return sorted[i].off < sorted[j].off })
 	held, consumed, max := 0, 0, 0
+	enter := func(first bool) {
+		// entering a directory: a compacting reader drops consumed references here; the pointer
+		// to the directory itself is the current reference and keeps its slot until the next
+		// compaction
+		if !first {
+			held -= consumed
+			consumed = 1
+		}
+	}
 	for _, b := range sorted {
 		if b.dir == nil {
+			if noteTags > 0 && b.owner != nil && b.owner.Entries[b.ei].Tag == 0x927c {
+				// a maker note the reader follows: a directory whose values lie inside the note
+				enter(false)
+				held += noteTags
+				if held > max {
+					max = held
+				}
+				consumed += noteTags
+				continue
+			}
 			consumed++
 			continue
 		}
-		// entering a directory: a compacting reader drops consumed references here
-		if b != sorted[0] {
-			consumed++ // the pointer to this directory itself
-			held -= consumed
-			consumed = 0
-		}
+		enter(b == sorted[0])
 		d := b.dir
 		for i, e := range d.Entries {
 			if e.Child != nil {
